@@ -187,8 +187,8 @@ PROPS["C18"] = {
     "verus": [],
     "kani": [],
     "level": "exploration",
-    "level_text": "BOUNDED STAND-IN ONLY - nothing is proved for this property. DerivedRelationsManager / KnowledgeGraph::publish_snapshot are state machines over HashMap<String, HashSet<String>> behind a worker thread (CBMC: no result on the smallest instance; no Verus specification for the thread/channel code). Two real StorageEngines get the same history through the public API, one with KnowledgeGraph::enable_incremental called before step 0, 1 or 2, one never; after every step the answers for three persistent rules (over base facts with two clauses, over another derived relation, recursive) from execute_query_with_rules_tuples_on must agree. Histories: every sequence of length <= 2 and every 3rd of length 3 (thorough: all of length <= 3, every 20th of length 4) over 10 steps (base inserts/deletes on two relations, rule registrations, clause removal, rule drop) that registers a rule, plus every 7th of the others.",
-    "level_note": "bounded: histories of <= 3 (thorough 4) steps over 10 step kinds, sampled as stated, 3 fixed rules, <= 5 base tuples; enable_incremental is called directly (index creation, its production trigger, is not exercised); on the current tree auto-materialisation fails on every rule (its query text `?name(..)` is rejected by the engine), so the comparison exercises invalidation and snapshot publication but never a stored materialisation",
+    "level_text": "BOUNDED STAND-IN ONLY - nothing is proved for this property. DerivedRelationsManager / KnowledgeGraph::publish_snapshot are state machines over HashMap<String, HashSet<String>> behind a worker thread (CBMC: no result on the smallest instance; no Verus specification for the thread/channel code). Two real StorageEngines get the same history through the public API, one with KnowledgeGraph::enable_incremental called before step 0, 1 or 2, one never; after every step the answers for four persistent rules (over base facts with two clauses, over a derived and a base relation, recursive, over derived relations only) from execute_query_with_rules_tuples_on must agree. Histories: every sequence of length <= 2 and every 3rd of length 3 (thorough: all of length <= 3, every 20th of length 4) over 11 steps (base inserts/deletes on two relations, rule registrations, clause removal, rule drop) that registers a rule, plus every 7th of the others.",
+    "level_note": "bounded: histories of <= 3 (thorough 4) steps over 11 step kinds, sampled as stated, 4 fixed rules, <= 5 base tuples; enable_incremental is called directly (index creation, its production trigger, is not exercised); on the current tree auto-materialisation fails on every rule (its query text `?name(..)` is rejected by the engine), so the comparison exercises invalidation and snapshot publication but never a stored materialisation",
     "technique": "bounded stand-in tests on the real code (cargo test in a scratch copy of the working tree, module injected insert-only); the contract (answers equal a fresh evaluation) is evaluated by differential execution of the same real engine with the feature off; labelled bounded, never counted as proved; no deductive obligation exists for this property",
     "aux_failure": "violation",
     "functions_under_contract": [],
@@ -213,7 +213,7 @@ PROPS["C25"] = {
     "functions_under_contract": [],
     "assumptions": [
         "nothing is proved; the stated bound is the whole coverage",
-        "with <= 7 points and ef = 200 the approximate search returns every stored point (an incomplete answer would be reported as a violation)",
+        "with <= 7 points and ef = 200 the approximate search returns every stored point except very rarely (random level assignment; one miss observed in ~20000 runs): a failing history is re-run twice and reported only if it fails three times out of three",
         "the exact tombstone count 'implied by the history' depends on the auto-compaction policy; only len() - tombstone_count() == live and the upper bound are checked",
     ],
     "trusted_base": ["rustc/cargo test on the scratch copy", "witness/standin_hnsw_history.rs (model)"],
@@ -226,8 +226,8 @@ PROPS["C27"] = {
     "verus": [],
     "kani": [],
     "level": "exploration",
-    "level_text": "BOUNDED STAND-IN ONLY - nothing is proved for this property. Authorization is inlined in the async Handler::execute_program and depends on string parsing of the whole program (outside both verifiers); the role lattice it consults is proved under C28. A real Handler with bootstrapped authentication, a knowledge graph kg1 (facts, a rule, a schema) and three non-admin users without write permission on it (global viewer + KG viewer; global editor + KG viewer; global editor without a KG role) submit, through Handler::execute_program, 7 state-changing statements (insert, bulk insert, delete, conditional delete, persistent rule, rule drop, schema declaration) wrapped in 9 program shapes (alone; after / before a query line; after a comment; after blank + comment lines; after a session rule; two writes; leading whitespace; after a continuation-line query): after every request base tuples, persistent rules and schemas of kg1 must be what they were. Control: a KG editor can write.",
-    "level_note": "bounded: 7 statements x 9 shapes x 3 identities = 189 requests on one knowledge graph; `.kg use` switches to a second user-owned graph, updates, session facts and meta commands other than those of C29 are not exercised",
+    "level_text": "BOUNDED STAND-IN ONLY - nothing is proved for this property. Authorization is inlined in the async Handler::execute_program and depends on string parsing of the whole program (outside both verifiers); the role lattice it consults is proved under C28. A real Handler with bootstrapped authentication, a knowledge graph kg1 (facts, a rule, a schema) and three non-admin users without write permission on it (global viewer + KG viewer; global editor + KG viewer; global editor without a KG role) submit, through Handler::execute_program, 7 state-changing statements (insert, bulk insert, delete, conditional delete, persistent rule, rule drop, schema declaration) wrapped in 14 program shapes (alone; after / before a query line; after a comment; after blank + comment lines; after a session rule; two writes; leading whitespace; after a continuation-line query; after a query with a trailing comment; after `.status` / `.rel list` / `.kg use kg1`; after a continuation-line rule with a comment): after every request base tuples, persistent rules and schemas of kg1 must be what they were. Control: a KG editor can write.",
+    "level_note": "bounded: 7 statements x 14 shapes x 3 identities + 21 graph-switch programs = 315 requests; updates, session facts and meta commands other than those of C29 are not exercised",
     "technique": "bounded stand-in tests on the real code (cargo test in a scratch copy of the working tree, module injected insert-only); the contract (state unchanged / request refused) is evaluated on enumerated programs and identities; labelled bounded, never counted as proved; no deductive obligation exists for this property",
     "aux_failure": "violation",
     "functions_under_contract": [],
@@ -245,8 +245,8 @@ PROPS["C29"] = {
     "verus": [],
     "kani": [],
     "level": "exploration",
-    "level_text": "BOUNDED STAND-IN ONLY - nothing is proved for this property. Authorization is inlined in the async Handler::execute_program and depends on string parsing of the whole program (outside both verifiers); the role lattice it consults is proved under C28. The same three non-admin users submit 7 programs with the internal knowledge graph as the request's target (queries on users / kg_acls, inserts, deletes, with comments and after a query line) and 7 programs naming it in `.kg use/create/drop` alone and inside multi-line programs (followed by reads or writes of users / kg_acls): every request with the internal graph as target must be refused, no request may return rows of it or switch the session to it, and its relations must be unchanged afterwards.",
-    "level_note": "bounded: 14 programs x 3 identities; session re-binding through the WebSocket session manager is not exercised (session_id = None)",
+    "level_text": "BOUNDED STAND-IN ONLY - nothing is proved for this property. Authorization is inlined in the async Handler::execute_program and depends on string parsing of the whole program (outside both verifiers); the role lattice it consults is proved under C28. The same three non-admin users submit 7 programs with the internal knowledge graph as the request's target (queries on users / kg_acls, inserts, deletes, with comments and after a query line) and 12 programs naming it in `.kg use/create/drop` alone and inside multi-line programs (after queries, comments, read-only meta commands; followed by reads or writes of users / kg_acls): every request with the internal graph as target must be refused, no request may return rows of it or switch the session to it, and its relations must be unchanged afterwards.",
+    "level_note": "bounded: 19 programs x 3 identities; session re-binding through the WebSocket session manager is not exercised (session_id = None)",
     "technique": "bounded stand-in tests on the real code (cargo test in a scratch copy of the working tree, module injected insert-only); the contract (state unchanged / request refused) is evaluated on enumerated programs and identities; labelled bounded, never counted as proved; no deductive obligation exists for this property",
     "aux_failure": "violation",
     "functions_under_contract": [],
